@@ -3,12 +3,22 @@
 Oracle 1 (probe, asan): every fault applied in memory to a compiler-produced file -> nvm_deserialize
 must return NULL.  Oracle 2 (CLI): a stratified sample of the same fault classes goes through the real
 `nano_vm` binary: exit != 0, nothing on stdout, the refusal message on stderr, no sanitizer report.
+Oracle 3 (daemon): the same sample is submitted to a private nano_vmd, first to a fresh daemon, then after the daemon
+has served the intact file (once, twice): every damaged copy must get an ERROR reply and no OUTPUT / EXIT_CODE frame.
+Besides compiler-produced files the fault classes are applied to forged copies whose stored checksum is a special value.
 """
+import importlib.util
 import os
 import re
+import struct
+import zlib
 
-from .. import build, corpus
+from .. import build, corpus, core
 from ..run import run as sh, pmap, Scratch
+
+_spec = importlib.util.spec_from_file_location("nlv_vmd_client_c12", os.path.join(core.VERIF, "tools", "vmd_client.py"))
+vc = importlib.util.module_from_spec(_spec)
+_spec.loader.exec_module(vc)
 
 LEVEL = "fault_enumeration"
 
@@ -35,6 +45,51 @@ def _sources(ctx, sc):
         text = body + "fn main() -> int {\n    (println \"NLV-START\")\n" + calls + "    return 0\n}\nshadow main { assert true }\n"
         srcs.append(sc.file("syn/syn%d.nano" % k, text))
     return srcs
+
+
+SPECIAL_CRCS = [0x00000000, 0xFFFFFFFF, 0x00000001, 0x80000000, 0xEDB88320, 0xDEBB20E3]
+
+
+def forge_checksum(data, target, tag=b"NLV-START"):
+    """A copy of the module `data` whose body CRC-32 (and stored checksum) is `target`: four bytes inside the string `tag`
+    (string pool data: any bytes are a valid string) are solved for.  CRC-32 is affine over GF(2) in those 32 bits, so the
+    system is solved exactly (no search).  Returns None if the tag is not in the file."""
+    at = data.find(tag, 32)
+    if at < 0:
+        return None
+    b = bytearray(data)
+    b[at:at + 4] = b"\0\0\0\0"
+    base = zlib.crc32(bytes(b[32:])) & 0xFFFFFFFF
+    cols = []
+    for i in range(32):
+        c = bytearray(b)
+        c[at + i // 8] ^= 1 << (i % 8)
+        cols.append((zlib.crc32(bytes(c[32:])) & 0xFFFFFFFF) ^ base)
+    # Gaussian elimination over GF(2): find x with XOR_{i in x} cols[i] = target ^ base
+    want = target ^ base
+    rows = [(cols[i], 1 << i) for i in range(32)]
+    piv = {}
+    for v, m in rows:
+        for bit in sorted(piv, reverse=True):
+            if v >> bit & 1:
+                v ^= piv[bit][0]
+                m ^= piv[bit][1]
+        if v:
+            piv[v.bit_length() - 1] = (v, m)
+    x = 0
+    for bit in sorted(piv, reverse=True):
+        if want >> bit & 1:
+            want ^= piv[bit][0]
+            x ^= piv[bit][1]
+    if want:
+        return None
+    for i in range(32):
+        if x >> i & 1:
+            b[at + i // 8] ^= 1 << (i % 8)
+    if (zlib.crc32(bytes(b[32:])) & 0xFFFFFFFF) != target:
+        return None
+    b[28:32] = struct.pack("<I", target)
+    return bytes(b)
 
 
 def _cli_faults(data, rng, per_file):
@@ -82,12 +137,29 @@ def run(ctx):
         limit = 2500 if ctx.quick() else 12000   # the probe is quadratic in the file size
         mods = [m for m in mods if m[2] <= limit]
         mods.sort(key=lambda m: (m[2], m[0]))
+        syn_hosts = [m for m in mods if os.path.basename(m[0]).startswith("syn")][:2]
         want = ctx.n(10, 60)
         if len(mods) > want:
             # evenly spaced over the size range
             idx = sorted(set(int(i * (len(mods) - 1) / (want - 1)) for i in range(want)))
             mods = [mods[i] for i in idx]
         ctx.require(len(mods) >= 4, "fewer than 4 compiler-produced modules available (%d)" % len(mods))
+        # modules whose checksum is a special value (0, all ones, the polynomial, the CRC residue ...): a loader that gives
+        # any checksum value a meaning ("0 = none recorded") protects every other file and none of these
+        forged = []
+        for s_, p_, z_ in syn_hosts:
+            d0 = open(p_, "rb").read()
+            for tgt in SPECIAL_CRCS:
+                f_ = forge_checksum(d0, tgt)
+                if f_ is None:
+                    continue
+                fp_ = sc.file("forged/%s_%08x.nvm" % (os.path.basename(p_)[:-4], tgt), f_)
+                ctl = sh([asan.nano_vm, fp_], cpu=20, san=True)
+                ctx.require(ctl.rc == 0 and len(ctl.out) >= 1, "forged module with checksum %08x does not run: %s" % (tgt, ctl.brief()))
+                forged.append((s_, fp_, len(f_)))
+        ctx.require(len(forged) >= 4, "could not forge special-checksum modules (%d)" % len(forged))
+        n_forged = len(forged)
+        mods = mods + forged
 
         totals = dict(flips=0, truncs=0, bursts=0, header=0, tails=0, ctrl=0, bytexor=0, solid=0)
         accepted = dict(flips=0, truncs=0, bursts=0, header=0, tails=0, bytexor=0, solid=0)
@@ -164,11 +236,65 @@ def run(ctx):
                               "nano_vm did not refuse a damaged file (%s, fault %s): %s\n%s" % (os.path.basename(src), label, why, r.brief()),
                               {"damaged.nvm": open(fp, "rb").read(), "intact.nvm": open(path, "rb").read(),
                                "cmd.txt": "nano_vm damaged.nvm   # asan flavor\n"})
+        # ---- daemon oracle: the same faults through nano_vmd, before and AFTER it has served the intact file ---------------
+        # (a consumer that remembers modules it has already accepted must not let a damaged copy ride on that memory)
+        dm_outcomes = {}
+        n_dm = 0
+        ddir = sc.sub("vmd")
+        dm = vc.Daemon(asan.nano_vmd, ddir, {
+            "ASAN_OPTIONS": "log_path=%s:detect_leaks=0:exitcode=97:abort_on_error=0" % os.path.join(ddir, "san"),
+            "UBSAN_OPTIONS": "print_stacktrace=1:halt_on_error=1:exitcode=97:log_path=%s" % os.path.join(ddir, "san"),
+            "PATH": os.path.dirname(asan.nano_vmd) + os.pathsep + "/usr/bin:/bin"})
+        try:
+            ctx.require(dm.start(), "private nano_vmd did not start: %s" % dm.stderr_text(600))
+            for mi, (src, path, size) in enumerate(cli_mods[: ctx.n(3, 10)]):
+                data = open(path, "rb").read()
+                want = sh([asan.nano_vm, path], cpu=20, san=True)
+                if want.rc != 0 or not want.out:
+                    continue
+                faults = _cli_faults(data, ctx.rng("vmd", mi), ctx.n(24, 120))
+                for phase in ("fresh", "after-intact", "after-intact-again"):
+                    if phase != "fresh":
+                        r0 = vc.exec_module(ddir, data, timeout=60.0)
+                        ctx.require(not r0.timeout, "daemon did not answer an intact module in 60 s")
+                        if r0.out != want.out or r0.exit_code != 0:
+                            ctx.violation("vmd|intact-not-served|%s" % phase, "nano_vmd did not run the intact module %s correctly (%s): %s" % (
+                                os.path.basename(src), phase, r0.brief()), {"intact.nvm": data})
+                            break
+                    for label, fb in faults:
+                        cls = label.split("@")[0].split("+")[0].split(".")[0]
+                        r = vc.exec_module(ddir, fb, timeout=60.0)
+                        n_dm += 1
+                        if r.timeout or r.exc:
+                            ctx.require(dm.alive(), "daemon died: %s" % dm.stderr_text(800))
+                            dm_outcomes[cls + ":inconclusive"] = dm_outcomes.get(cls + ":inconclusive", 0) + 1
+                            continue
+                        refused = (not r.out) and r.exit_code is None and any(b"nvalid" in e for e in r.errors)
+                        dm_outcomes[cls + (":refused" if refused else ":BAD")] = dm_outcomes.get(cls + (":refused" if refused else ":BAD"), 0) + 1
+                        if not refused:
+                            why = "program output" if r.out else "exit code %s" % r.exit_code if r.exit_code is not None else "no refusal message"
+                            ctx.violation("vmd|%s|%s|%s" % (phase.replace("-again", ""), cls, why),
+                                          "nano_vmd did not refuse a damaged copy of %s (fault %s, %s): %s\n%s" % (
+                                              os.path.basename(src), label, {"fresh": "never saw the intact file", "after-intact": "after it had served the intact file once",
+                                                                              "after-intact-again": "after it had served the intact file twice"}[phase], why, r.brief()),
+                                          {"damaged.nvm": fb, "intact.nvm": data,
+                                           "cmd.txt": "nano_vmd --foreground --no-timeout   # asan flavor, NLVERIF_VMD_DIR=<dir>\n"
+                                                      "%ssubmit damaged.nvm (LOAD_EXEC)\n" % ("submit intact.nvm, then " if phase != "fresh" else "")})
+            ctx.require(dm.alive(), "daemon died during the fault sequence: %s" % dm.stderr_text(800))
+            sanlogs = [f for f in os.listdir(ddir) if f.startswith("san.")]
+            for f in sanlogs[:3]:
+                txt = open(os.path.join(ddir, f), errors="replace").read()
+                sig = re.sub(r"0x[0-9a-f]+", "", (txt.splitlines() or [""])[0])[:120]
+                ctx.violation("vmd-sanitizer|" + sig, "sanitizer report in nano_vmd while it was given damaged modules:\n" + txt[:3000], {"report.txt": txt})
+        finally:
+            dm.stop()
+        ctx.require(n_dm >= 100, "too few daemon cases (%d)" % n_dm)
+        ctx.require(sum(v for k, v in dm_outcomes.items() if k.endswith(":inconclusive")) <= n_dm // 20, "too many daemon sessions timed out: %s" % dm_outcomes)
         ctx.require(totals["ctrl"] >= 4 and totals["flips"] > 1000, "too few faults explored")
         ctx.require(n_cli >= 50, "too few CLI cases (%d)" % n_cli)
         n_faults = sum(totals[k] for k in ("flips", "truncs", "bursts", "header", "tails", "bytexor", "solid"))
         return ctx.finish({
-            "evaluations": n_faults + n_cli,
+            "evaluations": n_faults + n_cli + n_dm,
             "distinct_nontrivial": n_faults,
             "rule": "each evaluation is one distinct fault (bit position / burst (offset,start,len,pattern) / truncation length / tail / "
                     "header bit) of one compiler-produced module handed to the real nvm_deserialize under ASan+UBSan; all are "
@@ -182,10 +308,17 @@ def run(ctx):
             "accepted_by_class": accepted,
             "cli_cases": n_cli,
             "cli_outcomes": cli_outcomes,
+            "daemon_cases": n_dm,
+            "daemon_outcomes": dm_outcomes,
+            "daemon_phases": ["fresh daemon", "after the daemon served the intact file", "after it served it twice"],
+            "forged_special_checksum_modules": n_forged,
+            "special_checksums": ["%08x" % c for c in SPECIAL_CRCS],
             "samples": samples,
         }, assumptions=[
             "the probe links the repository's own nvm_format.o (asan flavor) and calls nvm_deserialize directly",
             "'nothing runs' is observed as: deserialize returns NULL (probe) / no stdout and a refusal message (nano_vm)",
-            "faults are applied to modules produced by nano_virt --emit-nvm from the repository's tests/examples and synthetic programs",
+            "faults are applied to modules produced by nano_virt --emit-nvm from the repository's tests/examples and synthetic programs, "
+            "and to copies of two of them whose stored checksum was forced to a special value by solving for 4 bytes of a string constant",
+            "the daemon is a private asan-flavor nano_vmd (hook H3: NLVERIF_VMD_DIR); refused = no OUTPUT frame, no EXIT_CODE frame, an ERROR frame",
         ])
 
